@@ -80,7 +80,8 @@ def verify_one(job):
                         g = None
                         out.setdefault('g_errors', []).append('%s: %s' % (ob.name, exc))
                     if g is not None:
-                        out.setdefault('g_refuted', []).append({'name': ob.name, 'g': g, 'params': list(fv.params)})
+                        out.setdefault('g_refuted', []).append({'name': ob.name, 'g': g, 'params': list(fv.params),
+                                                                'contract_modules': job['contract_modules']})
                         ob.verdict = 'refuted'
                         ob.detail = 'finite-scope counterexample (K=%d refs, lists <= %d) found by %s: %s' % (
                             K, L, g['solver'], ob.detail)
@@ -373,7 +374,7 @@ def handle_g_refuted(run, fid, gr):
     g = gr['g']
     short = gr['name'][len(fid) + 1:]
     job = {'fid': fid, 'model': g['model'], 'obligation': short,
-           'params': [p for p in gr['params']]}
+           'params': [p for p in gr['params']], 'contract_modules': gr.get('contract_modules', [])}
     rep = {}
     try:
         p = subprocess.run([VENV_PY, os.path.join(VERIF, 'rcc', 'replay_heap.py')], input=json.dumps(job),
